@@ -220,34 +220,40 @@ def fnPartF (p : FnPart) (kind : Str) : F :=
   seqF [newlineWithFirst multi, prelude p.comment [] [] 8 false, w (chars! "        "), w kind, w (chars! " = "),
     typeOrInlineF p.ty 8, if isTypeName p.ty then seqF [w (chars! ";"), nl] else id, setNewline multi]
 
+def okHasComment (f : FnDef) : Bool := match f.ok with | some ok => !ok.comment.isEmpty | none => false
+
+def fnMulti (f : FnDef) : Bool :=
+  !f.comment.isEmpty || !f.doc.isEmpty || f.args.isSome || f.err.isSome ||
+    (match f.ok with | some ok => !ok.comment.isEmpty || isMultiTypeOrInline ok.ty | none => false)
+
+def optPartF (o : Option FnPart) (kind : Str) : F := match o with | some p => fnPartF p kind | none => id
+
+/-- `= type_or_inline` with `;` and the line end when it is a type name. -/
+def eqInlineF (t : TypeOrInline) (ind : Nat) : F :=
+  seqF [w (chars! " = "), typeOrInlineF t ind, if isTypeName t then seqF [w (chars! ";"), nl] else id]
+
 def fnDefF (f : FnDef) : F :=
-  let okMulti := match f.ok with
-    | some ok => !ok.comment.isEmpty || isMultiTypeOrInline ok.ty
-    | none => false
-  let multi := !f.comment.isEmpty || !f.doc.isEmpty || f.args.isSome || f.err.isSome || okMulti
-  let okHasComment := match f.ok with | some ok => !ok.comment.isEmpty | none => false
-  seqF [newlineItem .function multi, prelude f.comment f.doc [] 4 false,
+  seqF [newlineItem .function (fnMulti f), prelude f.comment f.doc [] 4 false,
     w (chars! "    fn "), w f.name, w (chars! " @ "), w f.id,
-    if f.args.isSome || okHasComment || f.err.isSome then
+    if f.args.isSome || okHasComment f || f.err.isSome then
       seqF [w (chars! " {"), nl, setNewline false, setFirst true,
-        match f.args with | some p => fnPartF p (chars! "args") | none => id,
-        match f.ok with | some p => fnPartF p (chars! "ok") | none => id,
-        match f.err with | some p => fnPartF p (chars! "err") | none => id,
+        optPartF f.args (chars! "args"), optPartF f.ok (chars! "ok"), optPartF f.err (chars! "err"),
         w (chars! "    }"), nl]
     else match f.ok with
-      | some ok => seqF [w (chars! " = "), typeOrInlineF ok.ty 4, if isTypeName ok.ty then seqF [w (chars! ";"), nl] else id]
+      | some ok => eqInlineF ok.ty 4
       | none => seqF [w (chars! ";"), nl],
-    setNewline multi]
+    setNewline (fnMulti f)]
+
+def eventMulti (e : EventDef) : Bool :=
+  !e.comment.isEmpty || !e.doc.isEmpty || (match e.ty with | some t => isMultiTypeOrInline t | none => false)
 
 def eventF (e : EventDef) : F :=
-  let multi := !e.comment.isEmpty || !e.doc.isEmpty ||
-    (match e.ty with | some t => isMultiTypeOrInline t | none => false)
-  seqF [newlineItem .event multi, prelude e.comment e.doc [] 4 false,
+  seqF [newlineItem .event (eventMulti e), prelude e.comment e.doc [] 4 false,
     w (chars! "    event "), w e.name, w (chars! " @ "), w e.id,
     match e.ty with
-      | some t => seqF [w (chars! " = "), typeOrInlineF t 4, if isTypeName t then seqF [w (chars! ";"), nl] else id]
+      | some t => eqInlineF t 4
       | none => seqF [w (chars! ";"), nl],
-    setNewline multi]
+    setNewline (eventMulti e)]
 
 def itemFallbackF (fb : Fallback) (kw : Str) : F :=
   let multi := !fb.comment.isEmpty || !fb.doc.isEmpty
@@ -258,17 +264,26 @@ def isFn : ServiceItem → Bool
   | .fn _ => true
   | _ => false
 
+def serviceItemF : ServiceItem → F
+  | .fn f => fnDefF f
+  | .event e => eventF e
+
+/-- A fallback entry of the item block, after adjusting the blank-line flag. -/
+def optFallbackF (fb : Option Fallback) (pre : F) (k : Str) : F :=
+  match fb with
+  | some f => seqF [pre, itemFallbackF f k]
+  | none => id
+
+def fallbackMulti (fb : Option Fallback) : Bool :=
+  match fb with | some f => !f.comment.isEmpty || !f.doc.isEmpty | none => false
+
 def itemsF (items : List ServiceItem) (fnFb evFb : Option Fallback) : F :=
   let hasFns := items.any isFn
   let hasEvs := evFb.isSome || items.any (fun i => !isFn i)
   seqF [fun st => { st with lastItem := none },
-    forF items (fun i => match i with | .fn f => fnDefF f | .event e => eventF e),
-    match fnFb with | some fb => seqF [orNewline hasEvs, itemFallbackF fb (chars! "fn")] | none => id,
-    match evFb with
-      | some fb =>
-        let fnFbMulti := match fnFb with | some f => !f.comment.isEmpty || !f.doc.isEmpty | none => false
-        seqF [orNewline (fnFbMulti || (fnFb.isNone && hasFns)), itemFallbackF fb (chars! "event")]
-      | none => id]
+    forF items serviceItemF,
+    optFallbackF fnFb (orNewline hasEvs) (chars! "fn"),
+    optFallbackF evFb (orNewline (fallbackMulti fnFb || (fnFb.isNone && hasFns))) (chars! "event")]
 
 def serviceF (d : ServiceDef) : F :=
   seqF [newlineDef .service true, prelude d.comment d.doc [] 0 false,
